@@ -73,10 +73,20 @@ def apply_stream(ctx, cirq, mods, checks, n):
     for fam in ALL:
         if fam not in ('Ctrl', 'Matrix', 'Diagonal', 'Identity', 'Perm', 'QFT', 'CSwap', 'Sycamore'):
             todo += gates.special_grid(rng, fam) + gates.pair_grid(rng, fam)
+    # every family once (twice in the thorough tier) on qubit subspaces of wider axes, for every seed
+    forced = set()
+    for fam in ALL:
+        for _rep in range(1 if ctx.tier == 'quick' else 2):
+            for _try in range(40):
+                g = gates.draw(rng, fam)
+                if 1 <= len(g.shape) <= 3 and all(d == 2 for d in g.shape):
+                    todo.append(g)
+                    forced.add(id(g))
+                    break
     for g in todo:
         k = len(g.shape)
         cg = g.cirq_gate(cirq, mods)
-        sub = rng.random() < 0.25 and k >= 1 and all(d == 2 for d in g.shape) and k <= 2
+        sub = id(g) in forced or (rng.random() < 0.25 and k >= 1 and all(d == 2 for d in g.shape) and k <= 2)
         extra = rng.randint(0, max(0, min(3, 6 - k)))
         total = k + extra
         pos = rng.sample(range(total), k)
